@@ -1192,11 +1192,53 @@ func c11R13(p *core.Prog, r *core.Report) {
 						continue
 					}
 					stores++
-					before := len(carriers)
 					back(st.Val, owner.Obj().Name()+"."+fld, 0)
-					_ = before
 				}
 			}
+		}
+		// a document that is decoded into a struct with secret fields carries them
+		for _, g := range unit {
+			core.Calls(g, func(c ssa.CallInstruction) {
+				cal := core.Callee(c)
+				if cal == nil || cal.Pkg() == nil {
+					return
+				}
+				pk := cal.Pkg().Path()
+				if pk != "encoding/json" && pk != "gopkg.in/yaml.v3" && pk != "github.com/goccy/go-yaml" {
+					return
+				}
+				args := c.Common().Args
+				if len(args) == 0 {
+					return
+				}
+				target := underIface(args[len(args)-1])
+				pt, ok := target.Type().Underlying().(*types.Pointer)
+				if !ok {
+					return
+				}
+				owner, fields := secretFieldsOf(pt.Elem())
+				if owner == nil || len(fields) == 0 {
+					return
+				}
+				what := owner.Obj().Name() + "." + fields[0]
+				switch cal.Name() {
+				case "Unmarshal":
+					stores++
+					back(args[0], what, 0)
+				case "Decode":
+					// the decoder's source: NewDecoder(bytes.NewReader(body)) / NewDecoder(strings.NewReader(s))
+					for _, oc := range originCalls(args[0]) {
+						if f := core.Callee(oc); f != nil && f.Name() == "NewDecoder" && len(oc.Call.Args) > 0 {
+							for _, rc := range originCalls(underIface(oc.Call.Args[0])) {
+								if rf := core.Callee(rc); rf != nil && rf.Pkg() != nil && (rf.Pkg().Path() == "bytes" || rf.Pkg().Path() == "strings") && len(rc.Call.Args) > 0 {
+									stores++
+									back(rc.Call.Args[0], what, 0)
+								}
+							}
+						}
+					}
+				}
+			})
 		}
 		if len(carriers) == 0 {
 			continue
